@@ -32,6 +32,18 @@ Proof.
     match type of E with (if ?c then _ else _) = _ => destruct c; [inversion E; subst; exact A | discriminate] end.
 Qed.
 
+Lemma postfixes_ne : forall f lhs ts a r, ts <> [] -> parse_postfixes tbl tm f lhs ts = Ok (a, r) -> r <> [].
+Proof.
+  induction f as [|f IH]; intros lhs ts a r Hne H; cbn [parse_postfixes] in H; [discriminate|].
+  destruct ts as [|t rest]; [contradiction|].
+  destruct t; try (inversion H; subst; discriminate).
+  destruct (is_postfix tbl s); [|inversion H; subst; discriminate].
+  destruct (advance tm (TOp s :: rest)) as [ts2| | |] eqn:A; cbn [bind] in H; try discriminate.
+  apply advance_ne in A; [|discriminate].
+  unfold built in H. destruct (MAX_DEPTH <? ast_height (APostfix lhs s)); cbn [bind] in H; [discriminate|].
+  eapply IH; eassumption.
+Qed.
+
 Ltac ne_solve := first [assumption | discriminate].
 
 Ltac gstep I1 I2 I3 I4 I5 I6 I7 I8 :=
@@ -42,6 +54,7 @@ Ltac gstep I1 I2 I3 I4 I5 I6 I7 I8 :=
   | H : (if ?c then _ else _) = Ok _ |- _ => destruct c
   | H : advance _ ?ts = Ok ?r |- _ => apply advance_ne in H; [|ne_solve]
   | H : expect _ ?ts _ = Ok ?r |- _ => apply expect_ne in H; [|ne_solve]
+  | H : parse_postfixes _ _ _ _ ?ts = Ok (_, _) |- _ => apply postfixes_ne in H; [|ne_solve]
   | H : _ = Ok (_, _) |- _ =>
       first [ apply I1 in H; [|ne_solve] | apply I2 in H; [|ne_solve] | apply I3 in H; [|ne_solve] | apply I4 in H; [|ne_solve]
             | apply I5 in H; [|ne_solve] | apply I6 in H; [|ne_solve] | apply I7 in H; [|ne_solve] | apply I8 in H; [|ne_solve] ]
